@@ -76,10 +76,10 @@ def _run(F, R, ctx):
                    "previous cycle keep dead slots alive forever" % (fn.short(), len(resets)), fn.loc(fn.blocks[b]["line"]),
                    sample={"resets": len(resets)})
             after = fn.reachable_from(fn.succ(b))
-            wr = set()
-            for i, j, e in fn.events("fld"):
+            wr = []          # writes in the function or in a helper it calls after the mark (two calls deep)
+            for i, e in lib.deep_events(F, fn, "fld"):
                 if i in after and e[1] == "FreeList" and e[2] == "alloc_count" and e[3][0] == "w":
-                    wr.add(i)
+                    wr.append(i)
             rc = [x for x in fn.call_blocks(r"FreeList<T>\}::recount$") if x in after]
             R.inst("C19.c", "%s / free counts recomputed after full mark" % fn.short(), len(wr) + len(rc) >= 2,
                    "%s does not recompute both free lists' alloc_count after the full mark (found %d assignments, %d "
